@@ -73,9 +73,25 @@ class C03(Prop):
         ("F", "canonical_form establishes iso_check and move_orthogonalization_center preserves it, on every well-formed tree store, every centre, every mode (C03_canonical_form_iso, C03_move_center_iso); a move ends at the requested node (C03_move_center_reaches); distance_to_node computes tree distances; path_from_to is the tree path"),
         ("I", "per explored instance: the theorems' hypotheses (build sequence satisfies ops_okb, store wfb, temporary identifier fresh) and, as a cross-check, iso_check itself, evaluated by vm_compute"),
         ("O", "Q of a QR call is an isometry from its bond (KEEP: zero-padded partial isometry) — LAPACK contract, validated numerically at every node"),
-        ("V", "state unchanged, centre-norm = full norm: dense einsum oracle"),
+        ("O", "the represented state is unchanged: one step split_qr_contract_r_to_neighbour, canonical_form, move_orthogonalization_center, "
+              "ensure_orth_center and every sequence of them preserve the value of the whole network (net_value, any commutative semiring, every "
+              "assignment of the open wires; open wires permuted only; the extended store invariant wfsb preserved), in all three modes, on every "
+              "wfsb store and tree (C03_qr_step_state_unchanged, C03_canonical_form_state_unchanged, C03_move_center_state_unchanged, "
+              "C03_ensure_center_state_unchanged, C03_sequence_state_unchanged) -- under the kernel contract def_holds: every QR definition recorded "
+              "during the operation satisfies SUM_k Q.R = A over its new bond (KEEP: the zero-padded factors). The contract is a premise (not "
+              "provable about LAPACK); it is validated numerically for every recorded definition of every explored case against the captured "
+              "kernel factors, and its satisfiability is shown by C03_state_unchanged_example (concrete table over Z, all three modes)"),
+        ("I", "per explored instance: the hypotheses of the state theorems (wfsb of the store the first canonical-form operation starts from, "
+              "temporary identifier fresh) by vm_compute"),
+        ("V", "state unchanged (dense einsum of the real network before/after every operation), centre-norm = full norm: dense oracle; tensor "
+              "replacements (scramble) and structural edits between the operations are outside the C03 state theorems (edits: C02_run_net_value)"),
     ]
-    trusted_base = ["LAPACK QR: Q^H Q = 1, Q R = A (validated numerically)", "NumPy transpose/tensordot/reshape/pad"]
+    trusted_base = ["LAPACK QR: Q^H Q = 1 (validated numerically at every node)",
+                    "LAPACK QR kernel contract Q R = A over the new bond, incl. zero-padded KEEP factors (premise def_holds of the C03_*_state_unchanged "
+                    "theorems; validated numerically for every recorded definition of every explored case)",
+                    "net_value (TTN/InvSem.v) as the meaning of 'the represented state': sum over bound wires of the product of the atoms, tied to the "
+                    "code by comparing every raw tensor with the einsum of its model diagram after every operation",
+                    "NumPy transpose/tensordot/reshape/pad"]
 
     def generate(self, ctx, stream, budget_scale=1):
         rng = ctx.rng(stream)
@@ -91,6 +107,9 @@ class C03(Prop):
         for x in cases:
             c[f"nodes={x['nnodes']}"] += 1
         c.update(getattr(self, "_stats", {}))
+        ctr = getattr(self, "_contract", None)
+        if ctr:
+            c["recorded QR definitions with the kernel contract Q.R = A validated numerically"] = ctr[1]
         return dict(c)
 
     def _run_case(self, case):
@@ -270,8 +289,16 @@ class C03(Prop):
             build = [o for o in ob["ops"] if o[0] in ("add_root", "add_child")]
             body = "[" + "; ".join("(" + wmodel.coq_op(o, idm) + ")" for o in build) + "]"
             rid = len(idm.r) + 1000
-            hyp.append(f"(ops_okb empty_store {body} && wfb (fst (run empty_store {body})) && negb (amem {rid} (nodes (fst (run empty_store {body})))))%bool")
-        hv = coq_eval(ctx, wmodel.IMPORTS.replace("TTN.Canon", "TTN.Canon TTN.Inv TTN.InvRun"), hyp, shard=40, scope="nat_scope", timeout=600)
+            hyp.append(f"(ops_okb empty_store {body} && wfb (fst (run empty_store {body})) && wfsb (fst (run empty_store {body})) && negb (amem {rid} (nodes (fst (run empty_store {body})))))%bool")
+        hv = coq_eval(ctx, wmodel.IMPORTS.replace("TTN.Canon", "TTN.Canon TTN.Inv TTN.InvRun TTN.InvSem"), hyp, shard=40, scope="nat_scope", timeout=600)
+        # [state-unchanged] the QR definitions recorded by every step (TTN/CanonValue.crun_new_defs): the premise of the
+        # C03_*_state_unchanged theorems is the kernel contract of exactly these; compare() validates it numerically
+        dexprs = []
+        for ob, idm in zip(obs, idms):
+            body = wmodel.coq_list([("(" + wmodel.coq_cop(o, idm) + ")") for o in ob["ops"]])
+            dexprs.append(f"crun_new_defs {len(idm.r) + 1000} (empty_store, None) {body}")
+        dv = coq_eval(ctx, wmodel.IMPORTS.replace("TTN.Canon", "TTN.Canon TTN.CanonValue"), dexprs, shard=10, scope="nat_scope", timeout=600)
+        self._contract = [0, 0, []]
         out = []
         self._iso = [0, 0, []]
         for case, h in zip(cases, hv):
@@ -280,19 +307,35 @@ class C03(Prop):
                 self._iso[1] += 1
             else:
                 self._iso[2].append(f"seed {case['seed']}: hypotheses of the isometry theorems not met: {h}")
-        for v, idm in zip(vals, idms):
+        for v, idm, dd in zip(vals, idms, dv):
             if isinstance(v, BaseException):
                 out.append(v)
+            elif isinstance(dd, BaseException):
+                out.append(dd)
             else:
-                out.append([(ok, wmodel.model_obs_to_py(o, idm), [idm.r[c] for c in cen], iso) for ok, o, cen, iso in v])
+                if len(dd) != len(v):
+                    dd = [None] * len(v)
+                out.append([(ok, wmodel.model_obs_to_py(o, idm), [idm.r[c] for c in cen], iso, nd) for (ok, o, cen, iso), nd in zip(v, dd)])
         return out
+
+    @staticmethod
+    def _contract_defect(df, atab, atoms):
+        """kernel contract def_holds for one recorded definition: SUM over the new bond of Q.R against the recorded input diagram"""
+        kq, kr, kb, kind, ax, at, bd = df
+        ax, at, bd = list(ax), list(at), list(bd)
+        lhs = wmodel.eval_diagram({"axes": ax, "atoms": [kq, kr], "bnd": [kb]}, atab, atoms)
+        rhs = wmodel.eval_diagram({"axes": ax, "atoms": at, "bnd": bd}, atab, atoms)
+        if lhs.shape != rhs.shape:
+            return float("inf")
+        scale = max(1.0, float(np.max(np.abs(rhs))) if rhs.size else 1.0)
+        return (float(np.max(np.abs(lhs - rhs))) if rhs.size else 0.0) / scale
 
     def compare(self, case, ob, mo):
         if "exception" in ob:
             return f"harness/implementation exception: {ob['exception']}"
         if len(mo) != len(ob["steps"]):
             return "step count differs"
-        for j, (st, (mok, mobs, mcen, miso)) in enumerate(zip(ob["steps"], mo)):
+        for j, (st, (mok, mobs, mcen, miso, mdefs)) in enumerate(zip(ob["steps"], mo)):
             op = ob["ops"][j]
             if st["ok"] != mok:
                 return f"step {j} {op}: implementation {'accepted' if st['ok'] else 'rejected (' + str(st['err']) + ')'} but model {'accepted' if mok else 'rejected'}"
@@ -311,6 +354,20 @@ class C03(Prop):
                 val = wmodel.eval_diagram(mobs["tensors"][kk], mobs["atab"], ob["atoms"])
                 if val.shape != raw.shape or not np.allclose(val, raw, rtol=1e-8, atol=1e-8 * max(1.0, float(np.max(np.abs(raw))) if raw.size else 1.0)):
                     return f"step {j} {op}: tensor {kk} differs from the model diagram"
+            # [state-unchanged] the kernel contract Q.R = A (premise of the C03_*_state_unchanged theorems) for every QR
+            # definition this canonical-form operation recorded, on the captured kernel factors, in the world after the step
+            if op[0] in ("canon", "move", "ensure", "ensure_root") and mok:
+                if mdefs is None:
+                    return f"step {j} {op}: recorded definitions not available from the model"
+                for df in mdefs:
+                    if df[3] != 0:
+                        return f"step {j} {op}: a canonical-form operation recorded a non-QR definition {df}"
+                    self._contract[0] += 1
+                    dfc = self._contract_defect(df, mobs["atab"], ob["atoms"])
+                    if dfc > 1e-8:
+                        self._contract[2].append(f"seed {case['seed']} step {j} {op}: Q.R != A for definition q={df[0]} r={df[1]} bond={df[2]} (defect {dfc:.2e})")
+                        return f"step {j} {op}: kernel contract Q.R = A violated for the recorded definition q={df[0]} r={df[1]} bond wire {df[2]} (relative defect {dfc:.2e})"
+                    self._contract[1] += 1
         return None
 
     def extra_obligations(self, ctx):
